@@ -28,16 +28,12 @@
 From Coq Require Import String Ascii List ZArith Bool.
 From HV Require Import Base.Sexp Base.Str Base.SortSpec Base.Pos Model.Addr Model.DepKeys Model.Schema Model.Ast Model.Merge
                        Model.Ref Model.Collect Model.Origins Model.ValueTargets Model.BodyQueries Model.ValueTokens
-                       Model.Completion Model.Snippet Model.ValueHover.
+                       Model.Completion Model.Snippet Model.ValueHover Gen.Consts.
 Import ListNotations.
 Open Scope list_scope.
 Open Scope string_scope.
 
-(* lang.CandidateKind *)
-Definition kAttribute : Z := 1.  Definition kBool : Z := 4.    Definition kKeyword : Z := 5.
-Definition kList : Z := 6.       Definition kMap : Z := 7.     Definition kNumber : Z := 8.
-Definition kObject : Z := 9.     Definition kSet : Z := 10.    Definition kString : Z := 11.
-Definition kTuple : Z := 12.     Definition kReference : Z := 13.  Definition kFunction : Z := 14.
+(* lang.CandidateKind: kAttribute ... kFunction come from Gen/Consts.v, regenerated from /repo on every run *)
 
 Inductive vitem :=
 | VC (kind : Z) (label : option string) (newt snip : option string) (trig : option bool) (sb eb : Z)
